@@ -82,7 +82,7 @@ PENDING = {
     "roll:scalar-shift&axis-tuple:ValueError@array/routines.py:roll": "roll(x, int, (a0, a1)) raises; NumPy uses the scalar shift for every axis (dask's own test_roll expects the error)",
 }
 
-OPS = ["reshape", "reshape", "reshape", "transpose", "moveaxis", "swapaxes", "squeeze", "expand_dims", "concatenate", "concatenate",
+OPS = ["reshape", "reshape", "reshape", "transpose", "moveaxis", "moveaxis", "swapaxes", "squeeze", "expand_dims", "concatenate", "concatenate",
        "stack", "block", "block", "broadcast_to", "flip", "rot90", "take", "take", "shuffle", "repeat", "tile", "pad", "pad", "pad",
        "tril", "triu", "diff", "diff", "roll", "roll"]
 PAD_MODES = ["constant", "constant", "edge", "linear_ramp", "maximum", "mean", "median", "minimum", "reflect", "reflect",
@@ -170,6 +170,10 @@ def _gen(rng, op, long=False):
     minnd = {"tril": 2, "triu": 2, "rot90": 2, "take": 1, "shuffle": 1, "diff": 1, "block": 1, "pad": 1}.get(op, 0)
     maxlen = 7
     shape = A.rand_shape(rng, maxnd=3, maxlen=maxlen, minnd=minnd)
+    if op in ("moveaxis", "transpose", "swapaxes", "rot90") and rng.random() < 0.5:
+        # axis permutations only differ from each other with >= 3 axes: half of these cases are 3-d / 4-d with
+        # pairwise different lengths
+        shape = tuple(rng.sample((1, 2, 3, 4, 5), rng.choice((3, 3, 4))))
     if op in ("pad", "shuffle") and rng.random() < 0.9:
         shape = tuple(max(1, s) for s in shape)
     longchunks = None
@@ -196,8 +200,12 @@ def _gen(rng, op, long=False):
         if rng.random() < 0.6:
             c.update(src=rng.randrange(-nd, nd), dst=rng.randrange(-nd, nd))
         else:
-            k = rng.randint(1, nd)
-            c.update(src=rng.sample(range(nd), k), dst=rng.sample(range(nd), k))
+            k = rng.randint(1, nd) if rng.random() < 0.4 else max(1, rng.randint(nd - 1, nd))
+            src, dst = rng.sample(range(nd), k), rng.sample(range(nd), k)
+            if rng.random() < 0.3:
+                src = [a - nd if rng.random() < 0.5 else a for a in src]
+                dst = [a - nd if rng.random() < 0.5 else a for a in dst]
+            c.update(src=src, dst=dst)
     elif op == "swapaxes":
         if nd == 0:
             shape, nd = (3,), 1
